@@ -207,11 +207,13 @@ def finish(ev, violations, broken=None):
     ev.violations = violations
     ev.write()
     for k in ev.known_hits: print('KNOWN-FINDING: property=%s %s' % (ev.pid, k))
+    if violations:
+        # a violation was replayed against the real code: it stands whatever happened to the other harnesses
+        for v in violations: print('VIOLATION property=%s replay=%s' % (ev.pid, v))
+        if broken: print('NOTE property=%s: other harnesses of this run were inconclusive: %s' % (ev.pid, broken))
+        sys.exit(1)
     if broken:
         print('BROKEN-CHECK property=%s: %s' % (ev.pid, broken)); sys.exit(2)
-    if violations:
-        for v in violations: print('VIOLATION property=%s replay=%s' % (ev.pid, v))
-        sys.exit(1)
     print('OK property=%s tier=%s queries=%d discharged=%d inconclusive=%d wall=%.1fs' % (ev.pid, ev.tier, ev.queries, ev.discharged, ev.inconclusive, time.time() - ev.t0))
     sys.exit(0)
 
@@ -434,7 +436,7 @@ class BHarness:
 
 def _b_worker(args):
     import irz, z3, random
-    ll, hidx, initial_work, seeding = args
+    ll, hidx, initial_work, seeding = args[:4]; force_real = len(args) > 4 and args[4]
     h = _B_HS[hidx]            # harness objects (with hooks/closures) are inherited through fork, never pickled
     t0 = time.time()
     out = {'name': h.name, 'paths': 0, 'obl': 0, 'discharged': 0, 'unknown': 0, 'candidates': [], 'aborted': 0, 'loopbound': 0, 'queries': 0, 'solver_s': 0.0, 'samples': [],
@@ -453,7 +455,8 @@ def _b_worker(args):
             if E.errors and not h.allow_error: E.obligations.append(('cmac_error not reachable', False))
             out['errors_reached'] += E.errors
             # A7 side conditions: every exact addition must be representable (checked by the harness-specific post hook)
-            for c in getattr(E.fp, 'div_obl', []): E.obligations.append(('denominator non-zero (finite result)', c))
+            if not force_real:
+                for c in getattr(E.fp, 'div_obl', []): E.obligations.append(('denominator non-zero (finite result)', c))
             if h.post: h.post(E, out)
             extra = None
             if E.fp.tiny_sites:
@@ -469,7 +472,7 @@ def _b_worker(args):
                     if len(out['candidates']) < 40: out['candidates'].append({'obligation': name, 'words': ws, 'kinds': [k for _, k, _ in E.nondet], 'decisions': list(E.decisions)})
                 if len(out['samples']) < 6: out['samples'].append({'path_decisions': ''.join('T' if d else 'F' for d in E.decisions)[:80], 'obligation': name, 'verdict': verdict, 'solver_s': round(dt, 4)})
         from fractions import Fraction
-        st = irz.explore(m, '@' + h.entry, lambda: (irz.RealFP() if h.real_model else irz.SymFP(monotone=h.monotone, exact_add=h.exact_add, strict=h.strict)), on_path=on_path, tie_free=h.tie_free, stubs=h.stubs,
+        st = irz.explore(m, '@' + h.entry, lambda: (irz.RealFP() if (h.real_model or force_real) else irz.SymFP(monotone=h.monotone, exact_add=h.exact_add, strict=h.strict)), on_path=on_path, tie_free=h.tie_free, stubs=h.stubs,
                          maxpaths=h.maxpaths, maxsteps=h.maxsteps, timeout=h.timeout, solver_timeout_ms=h.solver_timeout_ms,
                          initial_work=initial_work, stop_when_pending=(h.split * 6 if seeding else None), log_stores=h.log_stores)
         out['queries'] = st['queries'] + out['obl']; out['infeasible'] = st['infeasible']; out['remaining'] = st['remaining']
@@ -565,7 +568,7 @@ def run_engine_b(pid, tier, harnesses, ev, work, known_match=None, custom_replay
             ev.add(h.name, h.what, h.bound, 'inconclusive', o['solver_s'], extra=base); broken.append('%s: %s' % (h.name, o['error'])); continue
         if o['loopbound']:
             ev.add(h.name, h.what, h.bound, 'inconclusive', o['solver_s'], extra=base); broken.append('%s: %d path(s) hit the step bound (unwinding obligation failed)' % (h.name, o['loopbound'])); continue
-        if o['paths'] < h.min_paths or o['obl'] == 0:
+        if (o['paths'] < h.min_paths or o['obl'] == 0) and not o['candidates']:
             ev.witnesses[h.name] = 'UNREACHABLE'
             ev.add(h.name, h.what, h.bound, 'inconclusive', o['solver_s'], extra=base); broken.append('%s: vacuous (paths=%d obligations=%d)' % (h.name, o['paths'], o['obl'])); continue
         ev.witnesses[h.name] = 'reachable: %d complete paths' % o['paths']
@@ -577,7 +580,19 @@ def run_engine_b(pid, tier, harnesses, ev, work, known_match=None, custom_replay
             ev.add(h.name, h.what, h.bound, 'inconclusive', o['solver_s'], extra=base); broken.append('%s: %d obligations undecided (solver timeout)' % (h.name, o['unknown'])); continue
         # candidates: replay against the natively compiled real code
         reproduced = None; tried = 0; kf = None
-        for c in o['candidates']:
+        # pass 1: the exact solver model of EVERY candidate (cheap), before any budget is spent on perturbations of the first few
+        if h.native_replay and not custom_replay:
+            for c in o['candidates'][:400]:
+                if not c['words']: continue
+                try: verdict, outp = native_replay(work, h, c['words'], tag='e%d' % tried)
+                except Broken as b2: broken.append('%s: replay build failed: %s' % (h.name, b2)); break
+                ev.replays += 1; tried += 1
+                if verdict == 'reproduced':
+                    reproduced = {'property': pid, 'harness': h.name, 'entry': h.entry, 'src': h.src, 'what': h.what, 'bound': h.bound, 'obligation': c['obligation'],
+                                  'nondet_words': ['%016x' % w for w in c['words']], 'defs': list(h.defs), 'engine': 'B', 'native_output': outp[-1000:], 'replay_verdict': 'reproduced'}
+                    break
+            tried = 0
+        for c in (o['candidates'] if not reproduced else []):
             payload = {'property': pid, 'harness': h.name, 'entry': h.entry, 'src': h.src, 'what': h.what, 'bound': h.bound, 'obligation': c['obligation'],
                        'nondet_words': ['%016x' % w for w in c['words']], 'defs': list(h.defs), 'engine': 'B'}
             if custom_replay:
@@ -596,6 +611,24 @@ def run_engine_b(pid, tier, harnesses, ev, work, known_match=None, custom_replay
                 if verdict == 'reproduced':
                     payload['nondet_words'] = ['%016x' % w for w in ws]; payload['native_output'] = outp[-1000:]; payload['replay_verdict'] = 'reproduced'; reproduced = payload; break
             if reproduced: break
+        if not reproduced and h.native_replay and not custom_replay and not h.real_model and not h.exact_add and o['candidates']:
+            # second chance: the IEEE-UF models did not replay (uninterpreted rounded values need not be realisable).  Generate candidates for the
+            # SAME harness in the real-arithmetic reading (exact operations): such models are realisable up to rounding and usually drive the
+            # native run down the same path.  Only natively reproduced ones count, as before.
+            t2 = time.time(); o2 = norm(run_tasks([(lls[hs.index(h)], hs.index(h), None, False, True)])[0])
+            ev.notes.append('%s: second-chance real-model pass: %d candidates in %.0fs%s' % (h.name, len(o2['candidates']), time.time() - t2, (' (error: %s)' % o2['error'][:80]) if o2['error'] else ''))
+            for c in o2['candidates'][:200]:
+                if not c['words']: continue
+                for k in range(4):
+                    ws = c['words'] if k == 0 else perturb_words(c['words'], c['kinds'], rnd, k)
+                    try: verdict, outp = native_replay(work, h, ws, tag='r%d' % tried)
+                    except Broken as b2: broken.append('%s: replay build failed: %s' % (h.name, b2)); verdict = 'x'; break
+                    ev.replays += 1; tried += 1
+                    if verdict == 'reproduced':
+                        reproduced = {'property': pid, 'harness': h.name, 'entry': h.entry, 'src': h.src, 'what': h.what, 'bound': h.bound, 'obligation': c['obligation'],
+                                      'nondet_words': ['%016x' % w for w in ws], 'defs': list(h.defs), 'engine': 'B (candidate from the real-model pass)', 'native_output': outp[-1000:], 'replay_verdict': 'reproduced'}
+                        break
+                if reproduced: break
         if reproduced:
             km = known_match(h, None, reproduced) if known_match else None
             if km: ev.known_hits.append(km); ev.add(h.name, h.what, h.bound, 'known-finding', o['solver_s'], extra=base)
